@@ -42,7 +42,7 @@ Alphabet ==
 \cup {Call("HB", 0, "vec"), Call("HB", 2, "complaint"), Call("HB", 0, "answer"), Call("HB", 2, "junk"),
       Call("HB", -1, "vec"), Call("HB", N, "junk"), Call("HB", Me, "vec")}
 \cup {Call("HP", 0, "share"), Call("HP", N, "share"), Call("HP", -1, "share")}
-\cup {Call("FD", 0, "none"), Call("FD", 2, "none"), Call("FD", -1, "none"), Call("FD", N, "none")}
+\cup {Call("FD", 0, "none"), Call("FD", 1, "none"), Call("FD", 2, "none"), Call("FD", -1, "none"), Call("FD", N, "none")}
 \* out-of-range values that are congruent to an in-range index modulo 256 (participant indices are bytes internally)
 \cup {Call("HP", 256, "share"), Call("HB", 256, "vec"), Call("FD", 256, "none")}
 
